@@ -71,6 +71,83 @@ pub(crate) struct Store<I, P, H> {
     pub size: usize, // The size of the heap
 }
 
+/// A hole in the heap: while an element is sifted up, the elements it passes are
+/// moved into the position it left and only its final position is written.
+///
+/// Between two moves `heap` contains one index twice and `qp` is stale for the
+/// element being sifted. The hole is filled when this guard is dropped, so that
+/// `heap` and `qp` are consistent again even if a comparison panics.
+pub(crate) struct Hole<'a> {
+    heap: &'a mut [Index],
+    qp: &'a mut [Position],
+    position: Position,
+    index: Index,
+}
+
+impl<'a> Hole<'a> {
+    /// Makes a hole at `position`, to be filled with the element `index`.
+    ///
+    /// # Safety
+    ///
+    /// `position` must be a valid position of `heap` and `index`
+    /// a valid index of `qp`; every index stored in `heap` must be valid for `qp`.
+    #[inline(always)]
+    pub unsafe fn new(
+        heap: &'a mut [Index],
+        qp: &'a mut [Position],
+        position: Position,
+        index: Index,
+    ) -> Self {
+        Hole {
+            heap,
+            qp,
+            position,
+            index,
+        }
+    }
+
+    /// The current position of the hole
+    #[inline(always)]
+    pub fn position(&self) -> Position {
+        self.position
+    }
+
+    /// The index of the element in position `position`
+    ///
+    /// # Safety
+    ///
+    /// `position` must be a valid position of the heap, different from the hole.
+    #[inline(always)]
+    pub unsafe fn index_at(&self, position: Position) -> Index {
+        *self.heap.get_unchecked(position.0)
+    }
+
+    /// Moves the element in position `from` into the hole.
+    /// The hole is in position `from` afterwards.
+    ///
+    /// # Safety
+    ///
+    /// `from` must be a valid position of the heap, different from the hole.
+    #[inline(always)]
+    pub unsafe fn move_from(&mut self, from: Position) {
+        let index = *self.heap.get_unchecked(from.0);
+        *self.heap.get_unchecked_mut(self.position.0) = index;
+        *self.qp.get_unchecked_mut(index.0) = self.position;
+        self.position = from;
+    }
+}
+
+impl Drop for Hole<'_> {
+    #[inline(always)]
+    fn drop(&mut self) {
+        // fill the hole
+        unsafe {
+            *self.heap.get_unchecked_mut(self.position.0) = self.index;
+            *self.qp.get_unchecked_mut(self.index.0) = self.position;
+        }
+    }
+}
+
 // do not [derive(Eq)] to loosen up trait requirements for other types and impls
 impl<I, P, H> Eq for Store<I, P, H>
 where
